@@ -8,6 +8,7 @@ export DEPSIM_REPO=$repo
 ok=0; lost=0
 for d in $here/seeded/*/; do
   name=$(basename $d)
+  if grep -q '"rejected": true' $d/meta.json; then echo "SKIPPED  $name (judged not to break the property, see meta.json)"; continue; fi
   checks=$(/venv/bin/python -c "
 import json,re,sys
 m=json.load(open('$d/meta.json'))
